@@ -155,6 +155,8 @@ def factTags (f : Facts) : List String :=
     | .none, _ => ["mk-none"]) ++
   (if f.offTrunc.isSome ∧ f.offTrunc ≠ some f.offNow then ["unit-start-in-other-offset"] else []) ++
   (if f.chg = some true then ["offset-changes-before-next"] else []) ++
+  (if f.tbl.any (fun r => r.2 = .none) then ["target-in-gap"] else []) ++
+  (if f.tbl.any (fun r => match r.2 with | .ambiguous _ _ => true | _ => false) then ["target-ambiguous"] else []) ++
   (if f.offNow % 3600 ≠ 0 then ["fractional-offset"] else [])
 
 /-- verdict of the `next` clauses on one instant; `ok` outside the statement's domain (n < 1) -/
